@@ -47,6 +47,12 @@ class ProgProp(object):
     def post_spec(self, rng, spec, cfg, tier):
         pass
 
+    def motif_case(self, rng, tier, spec):
+        """A hand-shaped (parametrised) program run under the usual calling-convention / flush-order variants."""
+        nv = self.variants_quick if tier == "quick" else self.variants_thorough
+        return {"spec": spec, "variants": [{"conv": ["call", "value", "wrapped"][i % 3], "prio": spec["prio"] if spec.get("keep_prio") else gen.gen_prio(rng, spec["kinds"])}
+                                           for i in range(nv)]}
+
     def sample(self, case, r):
         s = case["spec"]
         return {"templates": s["templates"][:3], "n_templates": len(s["templates"]), "kinds": s["kinds"],
